@@ -150,6 +150,20 @@ Fixpoint skip_returned (tr : list event) : bool :=
   | _ :: tl => skip_returned tl
   end.
 
+(** ** checkers that judge every return event against the trace before it *)
+
+Fixpoint all_rets (P : tid -> res -> list drops -> list event -> bool) (tr : list event) : bool :=
+  match tr with
+  | [] => true
+  | ERet t r d :: tl => P t r d tl && all_rets P tl
+  | _ :: tl => all_rets P tl
+  end.
+
+(** the same, with the operation of the call that returns and the trace before that call *)
+Definition with_call (P : tid -> op -> list event -> res -> list event -> bool)
+  : tid -> res -> list drops -> list event -> bool :=
+  fun t r _ tl => match split_call t tl with Some (o, older) => P t o older r tl | None => false end.
+
 (** ** C01: exactly-once delivery *)
 
 Definition chk_C01_nodup (e : env) (tr : list event) : bool := pairwise_disj (cov e tr).
@@ -179,20 +193,19 @@ Definition res_runs (r : res) : list run :=
   | _ => []
   end.
 
-Fixpoint chk_C02 (e : env) (tr : list event) : bool :=
-  match tr with
-  | [] => true
-  | ERet _ r _ :: tl => forallb (run_idx_ok e) (res_runs r) && chk_C02 e tl
-  | _ :: tl => chk_C02 e tl
-  end.
+Definition ev_C02 (e : env) : tid -> res -> list drops -> list event -> bool :=
+  fun _ r _ _ => forallb (run_idx_ok e) (res_runs r).
+
+Definition chk_C02 (e : env) (tr : list event) : bool := all_rets (ev_C02 e) tr.
 
 (** ** C03: chunk contract *)
 
-(** chunk size of the buffered iterator thread [t] holds after [tr] *)
+(** chunk size of the buffered iterator thread [t] holds after [tr] ([buffered_iter(0)] panics and
+    leaves the thread with the one it had) *)
 Fixpoint buf_size (t : tid) (tr : list event) : option N :=
   match tr with
   | [] => None
-  | ECall u (BufNew c) :: tl => if Nat.eqb u t then Some c else buf_size t tl
+  | ECall u (BufNew c) :: tl => if Nat.eqb u t && negb (c =? 0) then Some c else buf_size t tl
   | _ :: tl => buf_size t tl
   end.
 
@@ -213,18 +226,16 @@ Definition chunk_ok (e : env) (n k : N) (r : res) : bool :=
   | _ => false
   end.
 
-Fixpoint chk_C03 (e : env) (tr : list event) : bool :=
-  match tr with
-  | [] => true
-  | ERet t r _ :: tl =>
-      match split_call t tl with
-      | Some (Chunk n k, _) => ((n =? 0) || chunk_ok e n k r)
-      | Some (BufNext k, older) =>
-          match buf_size t older with Some c => chunk_ok e c k r | None => true end
-      | _ => true
-      end && chk_C03 e tl
-  | _ :: tl => chk_C03 e tl
-  end.
+Definition ev_C03 (e : env) : tid -> res -> list drops -> list event -> bool :=
+  fun t r _ tl =>
+    match split_call t tl with
+    | Some (Chunk n k, _) => ((n =? 0) || chunk_ok e n k r)
+    | Some (BufNext k, older) =>
+        match buf_size t older with Some c => chunk_ok e c k r | None => true end
+    | _ => true
+    end.
+
+Definition chk_C03 (e : env) (tr : list event) : bool := all_rets (ev_C03 e) tr.
 
 (** ** C04: one linearizable sequential cursor *)
 
@@ -257,19 +268,16 @@ Fixpoint increasing (l : list iv) : bool :=
 
 (** (ii) each thread receives strictly increasing positions; (iii) a pull that starts after another
     one returned receives larger positions *)
-Fixpoint chk_C04_order (e : env) (tr : list event) : bool :=
-  match tr with
-  | [] => true
-  | ERet t r _ :: tl =>
-      increasing (res_cover e r)
-      && all_above (iv_maxhi (cov_of e t tl)) (res_cover e r)
-      && match split_call t tl with
-         | Some (_, older) => all_above (iv_maxhi (cov e older)) (res_cover e r)
-         | None => false
-         end
-      && chk_C04_order e tl
-  | _ :: tl => chk_C04_order e tl
-  end.
+Definition ev_C04 (e : env) : tid -> res -> list drops -> list event -> bool :=
+  fun t r _ tl =>
+    increasing (res_cover e r)
+    && all_above (iv_maxhi (cov_of e t tl)) (res_cover e r)
+    && match split_call t tl with
+       | Some (_, older) => all_above (iv_maxhi (cov e older)) (res_cover e r)
+       | None => false
+       end.
+
+Definition chk_C04_order (e : env) (tr : list event) : bool := all_rets (ev_C04 e) tr.
 
 Definition chk_C04 (e : env) (tr : list event) : bool :=
   chk_C01_nodup e tr && chk_C04_prefix e tr && chk_C04_order e tr.
@@ -286,44 +294,40 @@ Definition no_positive (r : res) : bool :=
 Definition delivers_nothing (e : env) (r : res) : bool := iv_total (res_cover e r) =? 0.
 
 (** every call made after an end report returns the end / no positive length *)
-Fixpoint chk_C05 (e : env) (tr : list event) : bool :=
-  match tr with
-  | [] => true
-  | ERet t r _ :: tl =>
-      match split_call t tl with
-      | Some (o, older) =>
-          if end_reported older then
-            (if can_end o then is_end r || is_panic r else true)
-            && delivers_nothing e r && no_positive r
-          else true
-      | None => false
-      end && chk_C05 e tl
-  | _ :: tl => chk_C05 e tl
-  end.
+Definition ev_C05 (e : env) : tid -> res -> list drops -> list event -> bool :=
+  fun t r _ tl =>
+    match split_call t tl with
+    | Some (o, older) =>
+        if end_reported older then
+          (if can_end o then is_end r || is_panic r else true)
+          && delivers_nothing e r && no_positive r
+        else true
+    | None => false
+    end.
+
+Definition chk_C05 (e : env) (tr : list event) : bool := all_rets (ev_C05 e) tr.
 
 (** ** C06: skip_to_end stops the iteration for everyone *)
 
-Fixpoint chk_C06_stop (e : env) (tr : list event) : bool :=
-  match tr with
-  | [] => true
-  | ERet t r _ :: tl =>
-      match split_call t tl with
-      | Some (o, older) =>
-          if skip_returned older then
-            (if can_end o then is_end r || is_panic r else true)
-            && delivers_nothing e r
-            && match o, r with
-               | HasMore, RMore HNo => true
-               | HasMore, _ => false
-               | TryLen, RLen (Some n) => n =? 0
-               | TryLen, _ => false
-               | _, _ => true
-               end
-          else true
-      | None => false
-      end && chk_C06_stop e tl
-  | _ :: tl => chk_C06_stop e tl
-  end.
+Definition ev_C06 (e : env) : tid -> res -> list drops -> list event -> bool :=
+  fun t r _ tl =>
+    match split_call t tl with
+    | Some (o, older) =>
+        if skip_returned older then
+          (if can_end o then is_end r || is_panic r else true)
+          && delivers_nothing e r
+          && match o, r with
+             | HasMore, RMore HNo => true
+             | HasMore, _ => false
+             | TryLen, RLen (Some n) => n =? 0
+             | TryLen, _ => false
+             | _, _ => true
+             end
+        else true
+    | None => false
+    end.
+
+Definition chk_C06_stop (e : env) (tr : list event) : bool := all_rets (ev_C06 e) tr.
 
 Definition chk_C06 (e : env) (tr : list event) : bool :=
   chk_C06_stop e tr && chk_C01_nodup e tr && chk_C02 e tr && chk_C04_order e tr.
@@ -418,40 +422,38 @@ Fixpoint min_reported (tr : list event) : option N :=
 Definition called_last (t : tid) (tr : list event) : bool :=
   match tr with ECall u _ :: _ => Nat.eqb u t | _ => false end.
 
-Fixpoint chk_C11 (e : env) (tr : list event) : bool :=
-  match tr with
-  | [] => true
-  | ERet t r _ :: tl =>
-      match split_call t tl with
-      | Some (o, older) =>
-          (* quiescent query: nothing else pending when it was called nor when it returned *)
-          (match len_answer r with
-           | Some a =>
-               (if (n_pending older =? 0)%Z && called_last t tl && negb (has_panic older) then
-                  let remaining := if skip_returned older then 0 else e_len e - iv_total (cov e older) in
-                  match a with
-                  | Some n =>
-                      (if knows_len e then n =? remaining else n =? 0)
-                  | None => negb (knows_len e) && negb (end_reported_strong older) && negb (skip_returned older)
-                  end
-                  && (if end_reported_strong older then match a with Some 0 => true | _ => false end else true)
-                else true)
-               (* a reported length never increases *)
-               && match a, min_reported older with
-                  | Some n, Some m => n <=? m
-                  | _, _ => true
-                  end
-           | None => true
-           end)
-          (* zero is definitive: a pull that starts after it delivers nothing *)
-          && (match min_reported older with
-              | Some 0 => delivers_nothing e r
-              | _ => true
-              end)
-      | None => false
-      end && chk_C11 e tl
-  | _ :: tl => chk_C11 e tl
-  end.
+Definition ev_C11 (e : env) : tid -> res -> list drops -> list event -> bool :=
+  fun t r _ tl =>
+    match split_call t tl with
+    | Some (o, older) =>
+        (* quiescent query: nothing else pending when it was called nor when it returned *)
+        (match len_answer r with
+         | Some a =>
+             (if (n_pending older =? 0)%Z && called_last t tl && negb (has_panic older) then
+                let remaining := if skip_returned older then 0 else e_len e - iv_total (cov e older) in
+                match a with
+                | Some n =>
+                    (if knows_len e then n =? remaining else n =? 0)
+                | None => negb (knows_len e) && negb (end_reported_strong older) && negb (skip_returned older)
+                end
+                && (if end_reported_strong older then match a with Some 0 => true | _ => false end else true)
+              else true)
+             (* a reported length never increases *)
+             && match a, min_reported older with
+                | Some n, Some m => n <=? m
+                | _, _ => true
+                end
+         | None => true
+         end)
+        (* zero is definitive: a pull that starts after it delivers nothing *)
+        && (match min_reported older with
+            | Some 0 => delivers_nothing e r
+            | _ => true
+            end)
+    | None => false
+    end.
+
+Definition chk_C11 (e : env) (tr : list event) : bool := all_rets (ev_C11 e) tr.
 
 (** ** C12: for_each / enumerate_for_each / fold *)
 
@@ -463,16 +465,14 @@ Definition loop_shape_ok (l : loopk) (r : res) : bool :=
   | _ => false
   end.
 
-Fixpoint chk_C12_shape (tr : list event) : bool :=
-  match tr with
-  | [] => true
-  | ERet t r _ :: tl =>
-      match split_call t tl with
-      | Some (Loop l c _, _) => if c =? 0 then is_panic r else loop_shape_ok l r
-      | _ => true
-      end && chk_C12_shape tl
-  | _ :: tl => chk_C12_shape tl
-  end.
+Definition ev_C12 : tid -> res -> list drops -> list event -> bool :=
+  fun t r _ tl =>
+    match split_call t tl with
+    | Some (Loop l c _, _) => if c =? 0 then is_panic r else loop_shape_ok l r
+    | _ => true
+    end.
+
+Definition chk_C12_shape (tr : list event) : bool := all_rets ev_C12 tr.
 
 Definition chk_C12 (e : env) (tr : list event) : bool :=
   chk_C12_shape tr && chk_C01 e tr && chk_C02 e tr && chk_C05 e tr.
@@ -526,20 +526,24 @@ Definition chk_no_panic (tr : list event) : bool := negb (has_panic tr).
 Definition is_chunkzero (r : res) : bool :=
   match r with RPanic PkChunkZero _ => true | _ => false end.
 
-Fixpoint chk_C16 (e : env) (tr : list event) : bool :=
+Definition ev_C16 : tid -> res -> list drops -> list event -> bool :=
+  fun t r _ tl =>
+    match split_call t tl with
+    | Some (BufNew c, _) => if c =? 0 then is_chunkzero r else negb (is_panic r)
+    | Some (Loop _ c _, _) => if c =? 0 then is_chunkzero r else negb (is_panic r)
+    | Some (Chunk n _, _) => if n =? 0 then match r with RNone => true | _ => false end else negb (is_panic r)
+    | Some (_, _) => negb (is_panic r)
+    | None => false
+    end.
+
+Fixpoint finals_no_panic (tr : list event) : bool :=
   match tr with
   | [] => true
-  | ERet t r _ :: tl =>
-      match split_call t tl with
-      | Some (BufNew c, _) => if c =? 0 then is_chunkzero r else negb (is_panic r)
-      | Some (Loop _ c _, _) => if c =? 0 then is_chunkzero r else negb (is_panic r)
-      | Some (Chunk n _, _) => if n =? 0 then match r with RNone => true | _ => false end else negb (is_panic r)
-      | Some (_, _) => negb (is_panic r)
-      | None => false
-      end && chk_C16 e tl
-  | EFinal _ r _ :: tl => negb (is_panic r) && chk_C16 e tl
-  | _ :: tl => chk_C16 e tl
+  | EFinal _ r _ :: tl => negb (is_panic r) && finals_no_panic tl
+  | _ :: tl => finals_no_panic tl
   end.
+
+Definition chk_C16 (e : env) (tr : list event) : bool := all_rets ev_C16 tr && finals_no_panic tr.
 
 (** ** the checkers restricted to the domain each property quantifies over *)
 
